@@ -7,11 +7,15 @@ R2 insertion key subset of lookup key: the guard of add_node uses no more fields
 R3 override inventory of the disjoint backend; signature agreement of the two storage classes
 R4 internal ids come from monotone counters in both stores (shared with C04)
 R5 merge policy: the loop ranges over the caller's properties; keep / overwrite / combine pick the documented side
+   (path-sensitive evaluation of the loop body, any branching style)
+R6 no explicit rejection (raise) is reachable on the CFG after a property write in a mutator
+R7 scoping of enumerations / writes in the shared store (the C04 rules): an unscoped write makes the two backends disagree
 """
 import ast
 
 from ..core import AnalysisError, norm, loc, walk_no_nested, attr_chain, call_name, func_params
 from ..cfg import CFG
+from ..normalize import branch_values, Unknown, ctext, canon, local_env, expand, inline
 from .. import nxgraph as nxg
 
 MUTATORS = {
@@ -35,8 +39,10 @@ def write_nodes(cfg, fn, param, kind):
         for x in walk_no_nested(st):
             if isinstance(x, ast.Subscript) and isinstance(x.ctx, ast.Store) and ast.unparse(x.slice) == param:
                 hit = True
-            if isinstance(x, ast.Call) and isinstance(x.func, ast.Attribute) and x.func.attr in ('pop', 'update', 'setdefault') \
+            if isinstance(x, ast.Call) and isinstance(x.func, ast.Attribute) and x.func.attr in ('pop', 'update', 'setdefault', '__delitem__', '__setitem__') \
                     and x.args and ast.unparse(x.args[0]) == param:
+                hit = True
+            if isinstance(x, ast.Subscript) and isinstance(x.ctx, ast.Del) and ast.unparse(x.slice) == param:
                 hit = True
         if hit:
             out.append(n)
@@ -54,6 +60,8 @@ def run(prog, rep):
     rep.rule('R3', 'override inventory; storage and backend signature agreement with the abstract interface', floor=40)
     rep.rule('R4', 'monotone id allocators in both stores', floor=8)
     rep.rule('R5', 'merge policy loop', floor=4)
+    rep.rule('R7', 'shared-store enumerations and writes are scoped to the addressed graph (otherwise the two backends disagree)', floor=30)
+    rep.rule('R6', 'no rejection is reachable after a property write (a rejected call changes nothing)', floor=7)
 
     nxpg = prog.cls(nxg.NXPG)
     mod = nxpg.module
@@ -68,18 +76,18 @@ def run(prog, rep):
         fn = nxpg.methods.get(name)
         if fn is None:
             raise AnalysisError(f'NetworkXPropertyGraph.{name} vanished')
+        fn = nxg.method(prog, nxpg, fn)
         fq = f'NetworkXPropertyGraph.{name}'
         cfg = CFG(fn)
         writes = write_nodes(cfg, fn, param, kind)
         if not writes:
             raise AnalysisError(f'{fq}: no property write through {param} found')
         tests = [t for t in cfg.nodes if t.kind == 'test' and t.tag == 'if']
+        LBL = ('self.NETWORKX_LABEL', 'ABCPropertyGraph.PROP_CLASS', 'self.PROP_CLASS', 'NetworkXPropertyGraph.NETWORKX_LABEL')
         if kind == 'name':
-            cls_guards = [t for t in tests if ast.unparse(t.ast).replace(' ', '') in
-                          (f'{param}==self.NETWORKX_LABEL', f'self.NETWORKX_LABEL=={param}')]
+            cls_guards = [t for t in tests if ctext(t.ast) in [f'{param} == {l}' for l in LBL] + [f'{l} == {param}' for l in LBL]]
         else:
-            cls_guards = [t for t in tests if ast.unparse(t.ast).replace(' ', '') in
-                          (f'self.NETWORKX_LABELin{param}.keys()', f'self.NETWORKX_LABELin{param}')]
+            cls_guards = [t for t in tests if ctext(t.ast) in [f'{l} in {param}' for l in LBL]]
         for w in writes:
             rep.instance('R1', f'{fq}: {norm(w.ast, 80)} behind the Class guard')
             ok = any(cfg.edge_dominates(g, 'f', w) and any(isinstance(x, ast.Raise) for x in ast.walk(g.ast._parent)) for g in cls_guards)
@@ -88,15 +96,37 @@ def run(prog, rep):
                               f'the property named by `{param}` is written without first rejecting the Class property: '
                               f'the class of a node/link can be changed or removed through the API')
             if name == 'unset_node_property':
-                ug = [t for t in tests if ast.unparse(t.ast).replace(' ', '') in
-                      (f'{param}inABCPropertyGraph.NO_UNSET_PROPERTIES', f'{param}inself.NO_UNSET_PROPERTIES')]
+                ug = [t for t in tests if ctext(t.ast) in (f'{param} in ABCPropertyGraph.NO_UNSET_PROPERTIES', f'{param} in self.NO_UNSET_PROPERTIES',
+                                                           f'{param} in ABCPropertyGraphConstants.NO_UNSET_PROPERTIES')]
                 rep.instance('R1', f'{fq}: {norm(w.ast, 80)} behind the NO_UNSET guard')
                 if not any(cfg.edge_dominates(g, 'f', w) for g in ug):
                     rep.violation('R1', loc(mod, w.ast), fq, norm(w.ast, 100) + ' (NO_UNSET)',
                                   'identity properties (graph id, node id, class, type, name) can be unset')
 
+    # ---- R6: a call that is rejected has changed nothing ----
+    for name, (param, kind) in MUTATORS.items():
+        fn = nxg.method(prog, nxpg, nxpg.methods[name])
+        fq = f'NetworkXPropertyGraph.{name}'
+        cfg = CFG(fn)
+        writes = write_nodes(cfg, fn, param, kind)
+        raises = [n for n in cfg.nodes if n.kind == 'stmt' and n.tag == 'raise']
+        for w in writes:
+            seen, stack = set(), [s_ for s_, ek in w.succ if ek != 'x']
+            while stack:
+                n = stack.pop()
+                if n.id in seen:
+                    continue
+                seen.add(n.id)
+                stack.extend(s_ for s_, ek in n.succ if ek != 'x')
+            late = [r for r in raises if r.id in seen]
+            rep.instance('R6', f'{fq}: rejections reachable after {norm(w.ast, 60)}: {[norm(r.ast, 50) for r in late]}')
+            for r in late:
+                rep.violation('R6', loc(mod, r.ast), fq, f'{norm(w.ast, 60)} then {norm(r.ast, 70)}',
+                              f'{fq} writes the property and can still reject the call afterwards: the caller gets the exception the '
+                              f'documented interface promises, but the element has already been modified')
+
     # ---- R2 ----
-    an = nxpg.methods.get('add_node')
+    an = nxg.method(prog, nxpg, nxpg.methods.get('add_node'))
     mixin = prog.cls(nxg.MIXIN)
     fnode = mixin.methods.get('_find_node')
     lk = set()
@@ -116,7 +146,7 @@ def run(prog, rep):
         # the guard either calls node_exists(...) or tests the length of a query result
         for c in ast.walk(g.ast):
             if isinstance(c, ast.Call) and call_name(c) == 'node_exists':
-                ne = nxpg.methods.get('node_exists')
+                ne = nxg.method(prog, nxpg, nxpg.methods.get('node_exists'))
                 fields = set()
                 for sc in nxg.search_calls(ne):
                     for op, f, v in nxg.parse_query(prog, sc.args[1], mod, nxpg):
@@ -208,6 +238,9 @@ def run(prog, rep):
     # ---- R4 ----
     nxg.check_allocators(prog, rep, 'R4')
 
+    # ---- R7 ----
+    nxg.check_store_scoping(prog, rep, 'R7', 'R7', 'R7')
+
     # ---- R5 ----
     mn = nxpg.methods.get('merge_nodes')
     if mn is None:
@@ -225,39 +258,89 @@ def run(prog, rep):
     if len(selfp) != 1 or len(otherp) != 1:
         raise AnalysisError(f'{fq}: saved property copies not recognised: {saved}')
     sp, op_ = selfp[0], otherp[0]
-    loops = [n for n in walk_no_nested(mn) if isinstance(n, ast.For) and isinstance(n.iter, ast.Call) and call_name(n.iter) == 'items']
-    rep.instance('R5', f'{fq}: policy loop over {norm(loops[0].iter) if loops else "?"}')
-    if not loops or ast.unparse(loops[0].iter.func.value) != sp:
-        rep.violation('R5', loc(mod, loops[0] if loops else mn), fq, f'policy loop ranges over {norm(loops[0].iter) if loops else "nothing"}',
+    # the dictionary finally written onto the surviving node
+    upd = [c for c in walk_no_nested(mn) if isinstance(c, ast.Call) and call_name(c) == 'update' and c.args and isinstance(c.args[0], ast.Name)
+           and '.nodes[' in ast.unparse(c.func.value)]
+    if not upd:
+        raise AnalysisError(f'{fq}: final update of the node properties not found')
+    npv = upd[-1].args[0].id
+    pparam = [p_ for p_ in func_params(mn) if 'merge' in p_ or 'prop' in p_]
+    if not pparam:
+        raise AnalysisError(f'{fq}: policy parameter not found')
+    pparam = pparam[-1]
+
+    def loop_keys(l):
+        """(key var, env for the value var) when the loop ranges over the keys / items of a saved dictionary"""
+        it = l.iter
+        src = None
+        if isinstance(it, ast.Call) and call_name(it) in ('items', 'keys') and isinstance(it.func.value, ast.Name):
+            src = (it.func.value.id, call_name(it))
+        elif isinstance(it, ast.Name):
+            src = (it.id, 'keys')
+        elif isinstance(it, ast.Call) and isinstance(it.func, ast.Name) and it.func.id in ('list', 'sorted') and it.args and isinstance(it.args[0], ast.Name):
+            src = (it.args[0].id, 'keys')
+        if src is None or src[0] not in saved:
+            return None
+        if src[1] == 'items':
+            if not (isinstance(l.target, ast.Tuple) and len(l.target.elts) == 2 and all(isinstance(e, ast.Name) for e in l.target.elts)):
+                return None
+            k, v = l.target.elts[0].id, l.target.elts[1].id
+            return src[0], k, {v: ast.parse(f'{src[0]}[{k}]', mode='eval').body}
+        if not isinstance(l.target, ast.Name):
+            return None
+        return src[0], l.target.id, {}
+    loops = [(l, loop_keys(l)) for l in walk_no_nested(mn) if isinstance(l, ast.For)]
+    loops = [(l, lk) for l, lk in loops if lk is not None and any(
+        isinstance(x, ast.Subscript) and isinstance(x.ctx, ast.Store) and isinstance(x.value, ast.Name) and x.value.id == npv for x in ast.walk(l))]
+    rep.instance('R5', f'{fq}: policy loop over {norm(loops[0][0].iter) if loops else "?"}')
+    if not loops or loops[0][1][0] != sp:
+        rep.violation('R5', loc(mod, loops[0][0] if loops else mn), fq, f'policy loop ranges over {norm(loops[0][0].iter) if loops else "nothing"}',
                       f'the per-property policy must be applied to the properties of the caller\'s node ({sp}); ranging over '
                       f'the other node\'s properties drops the caller-only properties and fails on other-only ones')
     if loops:
-        kvar = loops[0].target.elts[0].id
+        l, (src, kvar, env0) = loops[0]
+
+        def sink(st):
+            if isinstance(st, ast.Assign) and len(st.targets) == 1 and isinstance(st.targets[0], ast.Subscript) and \
+                    isinstance(st.targets[0].value, ast.Name) and st.targets[0].value.id == npv:
+                return (st.targets[0].slice, st.value)
+            return None
+        try:
+            outs = branch_values(l.body, sink, env0, opaque=tuple(saved))
+        except Unknown as u:
+            raise AnalysisError(f'{fq}: policy loop not analysable: {u}')
         pol = {}
-        for n in ast.walk(loops[0]):
-            if isinstance(n, ast.IfExp):
-                t = ast.unparse(n.test)
-                for kw in ('discard', 'overwrite', 'combine'):
-                    if f"== '{kw}'" in t or f'== "{kw}"' in t:
-                        pol[kw] = ast.unparse(n.body)
-        rep.instance('R5', f'{fq}: policy {pol}')
+        for o in outs:
+            if o.target is None or ctext(o.target) != kvar:
+                rep.violation('R5', loc(mod, o.stmt), fq, norm(o.stmt, 80), 'the merged value is stored under another key than the property being merged')
+                continue
+            kws = [kw for kw in ('discard', 'overwrite', 'combine') if f"{pparam}[{kvar}] == '{kw}'" in o.conds]
+            if kws:
+                pol.setdefault(kws[0], set()).add(o.vtext)
+            elif f'{kvar} not in {pparam}' in o.conds:
+                pol.setdefault('<unmentioned>', set()).add(o.vtext)
+        rep.instance('R5', f'{fq}: policy {dict((k, sorted(v)) for k, v in pol.items())}')
         want = {'discard': f'{sp}[{kvar}]', 'overwrite': f'{op_}[{kvar}]', 'combine': f'[{sp}[{kvar}], {op_}[{kvar}]]'}
         for kw, w in want.items():
-            if pol.get(kw) != w:
-                rep.violation('R5', loc(mod, loops[0]), fq, f"policy '{kw}' yields {pol.get(kw)}",
+            if pol.get(kw) != {w}:
+                rep.violation('R5', loc(mod, l), fq, f"policy '{kw}' yields {sorted(pol.get(kw, []))}",
                               f"'{kw}' must yield {w}")
-        els = [n for n in ast.walk(loops[0]) if isinstance(n, ast.If) and n.orelse]
-        keep = any(ast.unparse(s) == f'new_props[{kvar}] = {sp}[{kvar}]' for n in els for s in n.orelse)
+        keep = pol.get('<unmentioned>') == {f'{sp}[{kvar}]'}
         rep.instance('R5', f'{fq}: unmentioned properties keep the caller\'s value: {keep}')
         if not keep:
-            rep.violation('R5', loc(mod, loops[0]), fq, 'unmentioned properties', 'properties not mentioned in merge_properties must keep the caller\'s value')
+            rep.violation('R5', loc(mod, l), fq, 'unmentioned properties', 'properties not mentioned in merge_properties must keep the caller\'s value')
     cn = [n for n in walk_no_nested(mn) if isinstance(n, ast.Call) and call_name(n) == 'contracted_nodes']
     rep.instance('R5', f'{fq}: {norm(cn[0], 110) if cn else "?"}')
     if not cn or [ast.unparse(a) for a in cn[0].args[1:3]] != ['real_node', 'real_other_node'] or \
             not any(k.arg == 'copy' and isinstance(k.value, ast.Constant) and k.value.value is False for k in cn[0].keywords):
         rep.violation('R5', loc(mod, mn), fq, 'contraction', 'the other node must be contracted into the caller\'s node in place (keeping the edges of both)')
-    default = [n for n in walk_no_nested(mn) if isinstance(n, ast.If) and ast.unparse(n.test) == 'merge_properties is None']
-    if not default or ast.unparse(default[0].body[0]) != f'new_props = {sp}':
+    def sink2(st):
+        if isinstance(st, ast.Assign) and len(st.targets) == 1 and isinstance(st.targets[0], ast.Name) and st.targets[0].id == npv:
+            return st.value
+        return None
+    douts = [o for o in branch_values(mn.body, sink2, opaque=tuple(saved)) if f'{pparam} is None' in o.conds]
+    rep.instance('R5', f'{fq}: default policy {[o.vtext for o in douts]}')
+    if not douts or any(o.vtext != sp for o in douts):
         rep.violation('R5', loc(mod, mn), fq, 'default policy', 'without a policy the caller\'s properties are kept')
 
 
